@@ -10,8 +10,9 @@
 (*             and whether Expression.String() returned the source         *)
 (*             ("same"/"diff"/"none" when it did not compile);             *)
 (*   outs      digest -> one outcome with that digest;                     *)
-(*   junk      [r, j, k]: the rendering extended with trailing token j was *)
-(*             "cerr" (rejected) or "compiled".                            *)
+(*   junkTried, junkAccepted   how many junk-extended sources (rendering   *)
+(*             + one trailing token from JunkTokens) were compiled, and    *)
+(*             those [r, j, k] that were NOT rejected (k = "compiled" ...) *)
 (* The verdict demands, in this order of reporting:                        *)
 (*   0 the record is well formed: the token sequences and gap flags are    *)
 (*     the specification's renderings of the tree (else "malformed|...",   *)
@@ -31,6 +32,10 @@ EXTENDS C11, Json, Params
 Obs == ndJsonDeserialize(ObsFile)
 N == Len(Obs)
 W == 16
+
+(* trailing text that can never continue an expression: closing brackets,  *)
+(* a comma, a second literal, a character that starts no token            *)
+JunkTokens == {")", "]", "}", ",", "1", "true", "#"}
 
 OpName(t) ==
   CASE t.k = "bin"  -> t.op
@@ -54,6 +59,7 @@ WellFormed(o) ==
   /\ Gaps(o.tokensMin) = o.gapsMin
   /\ Gaps(o.tokensFull) = o.gapsFull
   /\ Len(o.variants) >= 2
+  /\ o.junkTried = 2 * Cardinality(JunkTokens)
   /\ \A j \in 1..Len(o.variants) : o.variants[j].oh \in DOMAIN o.outs
 
 Verdict(o) ==
@@ -68,7 +74,7 @@ Verdict(o) ==
       accepted == {j \in 1..nv : Compiles(j)}
       verdictDiff == {j \in 1..nv : Compiles(j) # Compiles(1)}
       outDiff == {j \in 1..nv : vs[j].oh # vs[1].oh}
-      junkBad == {j \in 1..Len(o.junk) : o.junk[j].k # "cerr"}
+      junkBad == 1..Len(o.junkAccepted)
       strBad == {j \in 1..nv : Compiles(j) /\ vs[j].str # "same"}
       First(Js) == CHOOSE j \in Js : \A m \in Js : j <= m
       (* F is constant on the variants of each rendering (so a difference is one between the renderings) *)
@@ -90,7 +96,7 @@ Verdict(o) ==
         ELSE IF exp.k = "ok" /\ ~ValueAgrees(Out(1), exp)
           THEN "syntax|value-differs-from-specification|" \o ShapeSig(t) \o "|got-" \o KindOf(Out(1))
         ELSE IF junkBad # {}
-          THEN "syntax|trailing-junk-accepted|" \o o.junk[First(junkBad)].j \o "|" \o o.junk[First(junkBad)].k
+          THEN "syntax|trailing-junk-accepted|" \o o.junkAccepted[First(junkBad)].j \o "|" \o o.junkAccepted[First(junkBad)].k
         ELSE IF strBad # {}
           THEN "syntax|String-is-not-the-source|" \o vs[First(strBad)].d
         ELSE ""
